@@ -72,6 +72,10 @@ func (s *DiscoveryService) Start(ctx context.Context) error {
 			Type:            s.registryConfig.Type,
 			EnableUnifier:   s.registryConfig.EnableUnifier,
 			UnificationConf: &s.registryConfig.Unification,
+			// The configured routing strategy (strict / optimistic / discovery and its fallback
+			// options) must reach the registry; without it every deployment silently ran strict.
+			RoutingStrategy: &s.registryConfig.RoutingStrategy,
+			Discovery:       s,
 		}
 		var err error
 		s.registry, err = registry.NewModelRegistry(registryConfig, s.logger)
